@@ -133,11 +133,14 @@ class LoopSpec:
     """Invariant of one loop: inv(L) -> bool-ish; optional havoc(ctx, L) for extra state."""
 
     def __init__(self, inv: Callable[[Any], Any], havoc: Optional[Callable[[Ctx, Any], None]] = None, no_auto: Tuple[str, ...] = (),
-                 lists: Optional[Dict[str, str]] = None) -> None:
+                 lists: Optional[Dict[str, str]] = None, name: Optional[str] = None) -> None:
         self.inv = inv
         self.havoc = havoc
         self.no_auto = no_auto
         self.lists = lists or {}
+        # a loop contract registered under the loop's HEADER TEXT ('for x in xs' / 'while cond') instead of its ordinal survives reordering of
+        # loops; `name` is then the stable label used in obligation ids, and the index of a for loop is L['_i_loop']
+        self.name = name
 
 
 class Locals:
@@ -731,6 +734,18 @@ class Interp:
         label = f.loop_labels.get(id(node), '?')
         if self.registry is None or f.closure is None:
             return None, label
+        try:
+            if isinstance(node, ast.While):
+                header = 'while ' + ast.unparse(node.test)
+            else:
+                header = 'for ' + ast.unparse(node.target) + ' in ' + ast.unparse(node.iter)
+        except Exception:
+            header = None
+        if header is not None:
+            spec = self.registry.loop_spec(f.closure.key, header)
+            if spec is not None:
+                f.locals['$loop_alias'] = '_i_' + label.replace('#', '')
+                return spec, (spec.name or label)
         return self.registry.loop_spec(f.closure.key, label), label
 
     def x_While(self, s: ast.While, f: Frame) -> None:
@@ -868,13 +883,13 @@ class Interp:
         key = f.closure.key if f.closure else '?'
         seq = it.__pyvc_seq__() if hasattr(it, '__pyvc_seq__') else it
         L = Locals(f)
-        f.locals['_i_' + label.replace('#', '')] = 0
+        f.locals['_i_' + label.replace('#', '')] = f.locals['_i_loop'] = 0
         ctx.check('%s#inv:%s:entry' % (key, label), spec.inv(L))
         mode = ctx.choose(2, 'loop:%s' % label)
         i = ctx.fresh_int('i_' + label)
         n = seq.length()
         ctx.assume(And(i >= 0, i <= n))
-        f.locals['_i_' + label.replace('#', '')] = i
+        f.locals['_i_' + label.replace('#', '')] = f.locals['_i_loop'] = i
         self.havoc_loop(s.body, f, spec, label)
         ctx.assume(spec.inv(L))
         if mode == 0:
@@ -886,7 +901,7 @@ class Interp:
                 return
             except ContinueSig:
                 pass
-            f.locals['_i_' + label.replace('#', '')] = i + 1
+            f.locals['_i_' + label.replace('#', '')] = f.locals['_i_loop'] = i + 1
             ctx.check('%s#inv:%s:preserve' % (key, label), spec.inv(L))
             ctx.cut()
         else:
